@@ -49,6 +49,8 @@ fn main() {
     let mut cases = Cases::new(BufWriter::new(File::create(&out).unwrap()));
     match scenario.as_str() {
         "C14" => c14::generate(&mut cases, &mut rng, thorough),
+        "file-exh" => { cases.prop = "C01".into(); c_file::generate_exhaustive(&mut cases, thorough) }
+        "hist-exh" => { cases.prop = "C03".into(); c_hist::generate_exhaustive(&mut cases, thorough) }
         "file-c01" => { cases.prop = "C01".into(); c_file::generate(&mut cases, &mut rng, thorough, false) }
         "file-c09" => { cases.prop = "C09".into(); c_file::generate(&mut cases, &mut rng, thorough, true) }
         "file-c15" => { cases.prop = "C15".into(); c_file::generate_c15(&mut cases, &mut rng, thorough) }
